@@ -36,10 +36,19 @@ var zzECHListShapes bool // explore multi-entry config lists (first harness only
 const zzECHPublic = "public.example"
 const zzECHSecret = "hidden.example" // no byte of it has the GREASE form 0x?a
 
+// zzECHSuitesPrefix: cipher suites listed BEFORE the usable (HKDF-SHA256, aead)
+// one in the good config: none, or suites the client must skip because it
+// implements only one half of them (unknown KDF with a known AEAD and vice versa).
+var zzECHSuitesPrefix []byte
+
 func zzECHConfig(id uint8, kem uint16, pkFirst byte, aead uint16, maxName uint8) []byte {
 	pk := make([]byte, 32)
 	pk[0] = pkFirst
-	body := zzCat([]byte{id}, zzU16(kem), zzVec16(pk), zzVec16(zzCat(zzU16(1), zzU16(aead))), []byte{maxName}, zzVec8([]byte(zzECHPublic)), zzVec16(nil))
+	suites := zzCat(zzU16(1), zzU16(aead))
+	if pkFirst == 9 {
+		suites = zzCat(zzECHSuitesPrefix, suites)
+	}
+	body := zzCat([]byte{id}, zzU16(kem), zzVec16(pk), zzVec16(suites), []byte{maxName}, zzVec8([]byte(zzECHPublic)), zzVec16(nil))
 	return zzCat(zzU16(0xfe0d), zzVec16(body))
 }
 
@@ -47,12 +56,20 @@ func zzECHConfig(id uint8, kem uint16, pkFirst byte, aead uint16, maxName uint8)
 // first / second entry of a two-entry list whose other entry is a config the
 // client must skip (unknown KEM) or a second usable config (then the first wins).
 func zzECHConfigList(id uint8, aead uint16, maxName uint8) []byte {
+	zzECHSuitesPrefix = nil
+	shape := 0
+	if zzECHListShapes {
+		shape = verifChoice("config-list-shape", 6)
+	}
+	switch shape {
+	case 4: // HKDF-SHA384 (not implemented) with AES-256-GCM, then an unknown AEAD with HKDF-SHA256, listed first
+		zzECHSuitesPrefix = zzCat(zzU16(2), zzU16(2), zzU16(1), zzU16(0x7777))
+	case 5: // Export-only AEAD listed first
+		zzECHSuitesPrefix = zzCat(zzU16(1), zzU16(0xffff))
+	}
 	good := zzECHConfig(id, 0x0020, 9, aead, maxName)
 	zzECHSelectedConfig = good
-	if !zzECHListShapes {
-		return zzVec16(good)
-	}
-	switch verifChoice("config-list-shape", 4) {
+	switch shape {
 	case 1: // usable first, another usable config after it
 		return zzVec16(zzCat(good, zzECHConfig(id+1, 0x0020, 7, aead, maxName)))
 	case 2: // a config with an unsupported KEM first
@@ -259,7 +276,7 @@ func zzECHSetup() (p zzParrot, cfg *Config, cfgID uint8, aead uint16) {
 //verif:stub github.com/refraction-networking/utls/internal/hpke.SetupSender zzStubSetupSender
 //verif:expect end
 //verif:assume HPKE is opaque: SetupSender yields a 32-byte encapsulated key, Seal returns arbitrary bytes of plaintext length + 16; the server's reply is EOF (only the first flight is examined)
-//verif:doc Handshake with an ECH config list (one usable config - config id symbolic; AEAD 1/2/3; max name length 0/14/64 - alone, followed by a second usable config, or preceded by a config with an unsupported KEM or of an unknown version) for HelloGolang and every ECH-capable parrot, all randomness symbolic: the single record written is an outer ClientHello that parses strictly, whose SNI is the config's public name and whose bytes outside the per-connection random fields nowhere contain Config.ServerName; the ECH extension names the config id and suite, carries the encapsulated key and exactly the sealed payload; the AAD handed to Seal is the outer hello with the payload zeroed; the HPKE context is set up with the info string "tls ech\0" || exactly the selected config's bytes, its public key and its suite; and the real server-side decodeInnerClientHello applied to the plaintext handed to Seal yields an inner hello naming ServerName whose key shares, session id, groups, signature algorithms and ALPN equal the outer values.
+//verif:doc Handshake with an ECH config list (one usable config - config id symbolic; AEAD 1/2/3; max name length 0/14/64 - alone, followed by a second usable config, or preceded by a config with an unsupported KEM or of an unknown version; its cipher-suite list optionally starts with suites the client implements only half of) for HelloGolang and every ECH-capable parrot, all randomness symbolic: the single record written is an outer ClientHello that parses strictly, whose SNI is the config's public name and whose bytes outside the per-connection random fields nowhere contain Config.ServerName; the ECH extension names the config id and suite, carries the encapsulated key and exactly the sealed payload; the AAD handed to Seal is the outer hello with the payload zeroed; the HPKE context is set up with the info string "tls ech\0" || exactly the selected config's bytes, its public key and its suite; and the real server-side decodeInnerClientHello applied to the plaintext handed to Seal yields an inner hello naming ServerName whose key shares, session id, groups, signature algorithms and ALPN equal the outer values.
 func zzC15ECHOuterHidesNameInnerDecodes() {
 	zzECHListShapes = true
 	p, cfg, cfgID, aead := zzECHSetup()
